@@ -85,6 +85,46 @@ Proof.
   intros H; inversion H; subst. exists st2. split; [reflexivity|exact E3].
 Qed.
 
+Lemma react_all_pending_keep os st st' : react_all c os st = ROk st' -> mt_pending (mt st) = None ->
+  mt_pending (mt st') = None.
+Proof.
+  intros H P. destruct os as [|o os]; [cbn [react_all] in H; inversion H; subst; exact P|].
+  apply (react_all_pending_none c _ _ _ H). discriminate.
+Qed.
+
+(** core of conservation: [st1'] carries the flushed command-line entries (and possibly a
+    subcommand), [st] is what the env/default/validation phases make of it *)
+Lemma conservation_core its st1 st1' st :
+  react_all c (occs c 1 its) ps_new = ROk st1 ->
+  mt_args (mt st1') = mt_args (mt st1) -> mt_pending (mt st1') = None ->
+  post_loop c st1' = ROk st ->
+  forall a, In a (c_args c) ->
+    (forall gs, denote_arg c (a_id a) its = Some gs -> groups_of (a_id a) (mt st) = Some gs)
+    /\ (forall e, fm_get (a_id a) (mt_args (mt st)) = Some e -> m_source e = Some SCmdLine ->
+          denote_arg c (a_id a) its = Some (m_raw e)).
+Proof.
+  intros E1 EA P1 H a Ha.
+  destruct (react_all_occs_denote its st1 a Ha E1) as [R _].
+  assert (R' : groups_of (a_id a) (mt st1') = denote_arg c (a_id a) its).
+  { rewrite <- R. unfold groups_of, get. rewrite EA. reflexivity. }
+  clear R. rename R' into R.
+  destruct (post_loop_ok st1' st H) as [st2 [E2 E3]].
+  destruct (assert_app_ids_distinct c (conv_app c Hconv)) as [_ Hng]. specialize (Hng a Ha).
+  destruct (add_env_frame c st1' st2 P1 E2) as [P2 [_ [Ek [En _]]]].
+  destruct (add_defaults_frame c st2 st P2 E3) as [_ [_ [_ [Dk Dn]]]].
+  split.
+  - intros gs Hd. rewrite <- R in Hd. unfold groups_of, get in *.
+    destruct (fm_get (a_id a) (mt_args (mt st1'))) as [m|] eqn:G; [|discriminate].
+    rewrite (Dk _ _ (Ek _ _ Hng G)). exact Hd.
+  - intros e Ge Se. rewrite <- R. unfold groups_of, get.
+    destruct (fm_get (a_id a) (mt_args (mt st2))) as [m2|] eqn:G2.
+    + rewrite (Dk _ _ G2) in Ge. inversion Ge; subst m2.
+      destruct (fm_get (a_id a) (mt_args (mt st1'))) as [m1|] eqn:G1.
+      * rewrite (Ek _ _ Hng G1) in G2. inversion G2; subst. reflexivity.
+      * destruct (En _ _ Hng G1 G2) as [Sx _]. rewrite Sx in Se. discriminate.
+    + pose proof (Dn _ _ G2 Ge) as Sx. rewrite Sx in Se. discriminate.
+Qed.
+
 (** CONSERVATION.  On every successful parse of a rendered invocation, for every argument of the
     command: (1) if the invocation gives it occurrence groups [gs], the matches report exactly [gs];
     (2) every entry of the matches that is labelled command line reports exactly the groups the
@@ -96,26 +136,11 @@ Theorem conservation f its st : wf_items c PSValuesDone 1 its = true ->
     /\ (forall e, fm_get (a_id a) (mt_args (mt st)) = Some e -> m_source e = Some SCmdLine ->
           denote_arg c (a_id a) its = Some (m_raw e)).
 Proof.
-  intros Hw H a Ha. rewrite (gmw_items f its Hw) in H.
+  intros Hw H. rewrite (gmw_items f its Hw) in H.
   destruct (react_all c (occs c 1 its) ps_new) as [st1|e s|n] eqn:E1; cbn [rbind] in H; try discriminate.
-  destruct (react_all_occs_denote its st1 a Ha E1) as [R P1].
-  destruct (post_loop_ok st1 st H) as [st2 [E2 E3]].
-  destruct (assert_app_ids_distinct c (conv_app c Hconv)) as [_ Hng]. specialize (Hng a Ha).
-  destruct (add_env_frame c st1 st2 P1 E2) as [P2 [_ [Ek [En _]]]].
-  destruct (add_defaults_frame c st2 st P2 E3) as [_ [_ [_ [Dk Dn]]]].
-  split.
-  - intros gs Hd. rewrite <- R in Hd. unfold groups_of, get in *.
-    destruct (fm_get (a_id a) (mt_args (mt st1))) as [m|] eqn:G; [|discriminate].
-    rewrite (Dk _ _ (Ek _ _ Hng G)). exact Hd.
-  - intros e Ge Se. rewrite <- R. unfold groups_of, get.
-    destruct (fm_get (a_id a) (mt_args (mt st2))) as [m2|] eqn:G2.
-    + rewrite (Dk _ _ G2) in Ge. inversion Ge; subst m2.
-      destruct (fm_get (a_id a) (mt_args (mt st1))) as [m1|] eqn:G1.
-      * rewrite (Ek _ _ Hng G1) in G2. inversion G2; subst. reflexivity.
-      * destruct (En _ _ Hng G1 G2) as [Sx _]. rewrite Sx in Se. discriminate.
-    + pose proof (Dn _ _ G2 Ge) as Sx. rewrite Sx in Se. discriminate.
+  apply (conservation_core its st1 st1 st E1 eq_refl); [|exact H].
+  apply (react_all_pending_keep _ _ _ E1 eq_refl).
 Qed.
-
 
 (** ** Append arguments: every occurrence, in command-line order, one group each *)
 Definition no_overrides : bool := forallb (fun a => is_nil (a_overrides a)) (c_args c).
